@@ -42,6 +42,14 @@ func mkDeclSet(name string, opts, args []string) *declSet {
 	return d
 }
 
+// a third declaration set with `-` and `_` inside names, run over its own lexeme space (names that differ from the
+// declared ones only in the separator are undeclared)
+var c08NamesDecl = mkDeclSet("d,dry-run,k,keep_all;SRC_DIR", []string{"d dry-run", "k keep_all"}, []string{"SRC_DIR"})
+var c08NameLexemes = []string{"[", "]", "|", "...", "-d", "--dry-run", "--dry_run", "--keep_all", "--keep-all", "--dry", "SRC_DIR", "SRC", "SRC-DIR", "-dk", "=<a-b_c>", "OPTIONS"}
+
+// blanks and their look-alikes: only the space and the tab separate tokens
+var c08Blanks = []string{" ", "\t", "X", "-a", "\n", "\r", "\v", "\f", "\u00a0", "\u2003", "\u0085"}
+
 var c08Decls = []*declSet{
 	mkDeclSet("a,aa,b;X", []string{"a aa", "b"}, []string{"X"}),
 	mkDeclSet("z,zz;Q", []string{"z zz"}, []string{"Q"}),
@@ -93,10 +101,30 @@ func runSyntax(c *Ctx) {
 	}
 	c.Note("space (ii)", fmt.Sprintf("all sequences of <= %d lexemes over %q, joined by nothing, a space, a tab", maxLex, c03Lexemes))
 	c.Note("declarations", "each string against two declaration sets: {a/aa, b; X} and {z/zz; Q}")
+	for n := 1; n <= 4; n++ {
+		strSeqs(c08Blanks, n, func(p []string) { do(strings.Join(p, "")) })
+	}
+	c.Note("space (vi)", fmt.Sprintf("all strings of <= 4 symbols over %q", c08Blanks))
+	for n := 1; n <= 3; n++ {
+		strSeqs(c08NameLexemes, n, func(p []string) {
+			for _, sep := range []string{"", " "} {
+				if n == 1 && sep != "" {
+					continue
+				}
+				spec := strings.Join(p, sep)
+				i++
+				if !c.Mine(i) || !c.Begin("syntax-names", spec) {
+					continue
+				}
+				syntaxCase(c, spec, c08NamesDecl)
+			}
+		})
+	}
+	c.Note("space (vii)", fmt.Sprintf("declaration set {d/dry-run, k/keep_all; SRC_DIR}: all sequences of <= 3 lexemes over %q, joined by nothing or a space", c08NameLexemes))
 }
 
 func replaySyntax(c *Ctx, cs Case) {
-	for _, ds := range c08Decls {
+	for _, ds := range append([]*declSet{c08NamesDecl}, c08Decls...) {
 		if ds.name == cStr(cs, "decl") {
 			syntaxCase(c, cStr(cs, "spec"), ds)
 		}
@@ -198,6 +226,13 @@ func syntaxCase(c *Ctx, spec string, ds *declSet) {
 		}
 		return
 	}
+	// accepted: a second Run on the same instance compiles the same spec again, to the same effect
+	sharedBuf.Reset()
+	if o2 := runDirect(&sharedBuf, func() error { return app.Run([]string{"app"}) }); o2.Panicked {
+		c.Violation("C08", key+" (second Run on the same instance)", cs(), "the spec compiles again", "panic: "+safeSprint(o2.PanicVal))
+		return
+	}
+	c.Count("accepted_specs_run_twice", 1)
 	// accepted: the library's own tokens must partition the non-blank bytes (needs the internal lexer API)
 	tokenPartition(c, spec, ds, key, cs, len(v.Tokens))
 }
